@@ -95,6 +95,8 @@ struct SimThread {
   void* ret;
   uint64_t stall_until;
   bool spur_wake; // this wait ends in a spurious wake-up (its timer is the wake time, not a timeout)
+  int mark_left;       // sim_mark_after_atomics: atomic operations still to go
+  uint64_t mark_step;  // step at which the last of them was executed (0: not yet)
   int64_t prio;
   uint32_t load_streak;
   uint32_t run_streak;
@@ -1044,7 +1046,13 @@ static int g_sb_pending;
 static bool g_plain_hooks_seen;
 int sim_tso_active;
 
+static int g_sb_trace = -1;
 static void sb_apply(const SbEnt& x) {
+  if (g_sb_trace < 0)
+    g_sb_trace = getenv("SIMRT_TSO_TRACE") ? 1 : 0;
+  if (g_sb_trace)
+    fprintf(stderr, "SB apply step %llu addr %lx size %d val %llx due %llu\n", (unsigned long long)g.step, (unsigned long)x.addr,
+            x.size, (unsigned long long)x.val, (unsigned long long)x.due);
   switch (x.size) {
     case 1:
       __atomic_store_n((volatile uint8_t*)x.addr, (uint8_t)x.val, __ATOMIC_SEQ_CST);
@@ -1236,6 +1244,8 @@ extern "C" void sim_point(int kind, const void* addr) {
   }
   if (g.watch_addr && addr == g.watch_addr && g.watch_cb)
     g.watch_cb(addr, kind, t->id);
+  if (kind >= SP_LOAD && kind <= SP_CAS && t->mark_left > 0 && --t->mark_left == 0)
+    t->mark_step = g.step;
   if (addr && kind >= SP_LOAD && kind <= SP_CAS)
     conflict_point(t, kind, addr);
   int target = decide_switch(t, false);
@@ -2466,6 +2476,18 @@ extern "C" uint64_t sim_stat_futex_timeouts(void) {
 }
 extern "C" uint64_t sim_stat_idle_futex_timeouts(void) {
   return g.idle_futex_timeouts;
+}
+// "the calling thread's k-th atomic operation from now": lets an oracle apply the check-then-act rule
+// to something the library does a fixed number of atomic operations after a user function returns
+extern "C" void sim_mark_after_atomics(int k) {
+  SimThread* t = tl_self;
+  if (!t)
+    return;
+  t->mark_left = k;
+  t->mark_step = 0;
+}
+extern "C" uint64_t sim_marked_step(int tid) {
+  return (tid >= 0 && tid < g.nth) ? g.th[tid].mark_step : 0;
 }
 extern "C" uint64_t sim_stat_idle_jumps(void) {
   return g.idle_jumps;
